@@ -88,6 +88,10 @@ pub struct Stats {
     pub extra: BTreeMap<String, Value>,
     /// per numeric field of the oracle's summary: largest value seen (calibration aid)
     pub maxima: BTreeMap<String, f64>,
+    /// how often a passing case used more than 1/30, 1/10, 1/3 of an oracle's bound (keys: ratios with bound 1 or a stated constant)
+    pub tails: BTreeMap<String, u64>,
+    /// the passing case that came closest to each ratio-type bound
+    pub argmax: BTreeMap<String, (f64, serde_json::Value)>,
 }
 
 impl Stats {
@@ -114,6 +118,15 @@ impl Stats {
         for (k, v) in o.extra {
             self.extra.entry(k).or_insert(v);
         }
+        for (k, v) in o.tails {
+            *self.tails.entry(k).or_default() += v;
+        }
+        for (k, v) in o.argmax {
+            let better = self.argmax.get(&k).map_or(true, |e| v.0 > e.0);
+            if better {
+                self.argmax.insert(k, v);
+            }
+        }
         for (k, v) in o.maxima {
             let e = self.maxima.entry(k).or_insert(f64::NEG_INFINITY);
             if v > *e {
@@ -134,6 +147,16 @@ impl Stats {
                             let e = self.maxima.entry(k.clone()).or_insert(f64::NEG_INFINITY);
                             if x > *e {
                                 *e = x;
+                            }
+                            if k.contains("ratio") || k.contains("_over_") {
+                                if x >= 1.0 && self.argmax.get(k).map_or(true, |e| x > e.0) {
+                                    self.argmax.insert(k.clone(), (x, json!({"case": serde_json::to_value(case).unwrap(), "observed": summary})));
+                                }
+                                for th in [3.0, 10.0, 30.0] {
+                                    if x >= th {
+                                        *self.tails.entry(format!("{}>={}", k, th)).or_default() += 1;
+                                    }
+                                }
                             }
                         }
                     }
@@ -382,6 +405,8 @@ pub fn finish(ctx: &Ctx, rep: Report, known: &[Known], wall_s: f64) -> i32 {
         coverage[k] = v.clone();
     }
     coverage["observed_maxima"] = json!(st.maxima);
+    coverage["passing_cases_by_bound_ratio"] = json!(st.tails);
+    coverage["passing_case_closest_to_bound"] = json!(st.argmax.iter().map(|(k, v)| (k.clone(), v.1.clone())).collect::<BTreeMap<_, _>>());
     let ev = json!({
         "property_id": rep.id,
         "tier": ctx.tier.name(),
